@@ -101,6 +101,15 @@ def run(chk):
         if i != "err":
             chk.violate({"kind": "property", "case": lib.show_case(c), "impl": i[:1000], "malformed_class": k,
                          "explanation": "a malformed field (%s) was accepted by Dependency.UnmarshalControl although Parse rejects it" % k})
+    # ... and a second time, in the same process right after the first: a field that was rejected is rejected again (nothing
+    # about a rejected token is remembered as if it had been accepted)
+    tc = [("dtwice", c[1]) for c in cases]
+    ti = chk.run_impl(tc)
+    chk.record("malformed-classes-twice", tc, ti, lambda c, r: True)
+    for c, i, k in zip(tc, ti, kinds):
+        if i != "err err err":
+            chk.violate({"kind": "property", "case": lib.show_case(c), "impl": i[:1000], "malformed_class": k,
+                         "explanation": "a malformed field (%s) was rejected the first time and accepted when it was parsed again in the same process" % k})
     chk.extra["malformed_classes"] = sorted(set(kinds))
     # single-edit corruptions of valid fields: model vs implementation (ok/err and structure)
     cases = []
@@ -116,6 +125,12 @@ def run(chk):
     cases += [("dparse", [w]) for w in gen.words([b"a", b" ", b"(", b")", b"[", b"]", b"<", b">", b"!", b"|", b",", b"$", b"{", b"}", b"=", b":"], 3)]
     impl, model = chk.run_both(cases)
     chk.compare("raw-bytes-and-exhaustive-short", cases, impl, model, spec=False)
+    # whatever the input, the parser ANSWERS: a value or an error ("rejected with an error and no result") - never a panic,
+    # a hang, or a result together with an error
+    for c, i in zip(cases, impl):
+        if i in ("panic", "timeout", "err-with-value", "ok-nil") or i.startswith("runner-died"):
+            chk.violate({"kind": "property", "case": lib.show_case(c), "impl": i,
+                         "explanation": "the dependency parser did not answer a field with a value or an error (%s): a malformed field is rejected with an error and no result" % i})
     chk.assumptions += ["legal spacing = any run of space, tab, CR, LF between tokens; a blank is required between a name and a following '[' or '<'",
                         "error messages are not compared"]
 
